@@ -6,7 +6,9 @@ import (
 	"github.com/lightningnetwork/lnd/fn/v2"
 	"github.com/lightningnetwork/lnd/htlcswitch"
 	"github.com/lightningnetwork/lnd/lntypes"
+	"github.com/lightningnetwork/lnd/lnwallet"
 	"github.com/lightningnetwork/lnd/lnwallet/chancloser"
+	"github.com/lightningnetwork/lnd/lnwire"
 )
 
 // channelView is a view into the current active/global channel state machine
@@ -29,6 +31,12 @@ type channelView interface {
 	// StateSnapshot returns a snapshot of the current fully committed
 	// state within the channel.
 	StateSnapshot() *channeldb.ChannelSnapshot
+
+	// ChanType returns the type of the channel.
+	ChanType() channeldb.ChannelType
+
+	// IsInitiator returns true if we opened the channel.
+	IsInitiator() bool
 
 	// MarkShutdownSent persists the given ShutdownInfo. The existence of
 	// the ShutdownInfo represents the fact that the Shutdown message has
@@ -137,6 +145,38 @@ func (l *chanObserver) MarkShutdownSent(deliveryAddr []byte,
 	return l.chanView.MarkShutdownSent(shutdownInfo)
 }
 
+// coopCloseBalances returns the balances of a flushed channel as they enter
+// the co-op close transaction: the commitment balances, with the commitment
+// fee and the anchor values that were taken out of the channel opener's
+// balance handed back to the opener. This is the same credit that
+// lnwallet.CoopCloseBalance applies when the closing transaction is built, so
+// the close state machine judges fees and dust on the amounts that will
+// actually be signed.
+func coopCloseBalances(chanType channeldb.ChannelType, isInitiator bool,
+	snapshot *channeldb.ChannelSnapshot) chancloser.ShutdownBalances {
+
+	initiatorCredit := snapshot.CommitFee
+	if chanType.HasAnchors() {
+		initiatorCredit += 2 * lnwallet.AnchorSize
+	}
+
+	balances := chancloser.ShutdownBalances{
+		LocalBalance:  snapshot.LocalBalance,
+		RemoteBalance: snapshot.RemoteBalance,
+	}
+	if isInitiator {
+		balances.LocalBalance += lnwire.NewMSatFromSatoshis(
+			initiatorCredit,
+		)
+	} else {
+		balances.RemoteBalance += lnwire.NewMSatFromSatoshis(
+			initiatorCredit,
+		)
+	}
+
+	return balances
+}
+
 // FinalBalances is the balances of the channel once it has been flushed. If
 // Some, then this indicates that the channel is now in a state where it's
 // always flushed, so we can accelerate the state transitions.
@@ -154,12 +194,10 @@ func (l *chanObserver) FinalBalances() fn.Option[chancloser.ShutdownBalances] {
 	// If we don't have a link, then this is a restart case, so the
 	// balances are final.
 	case l.link == nil:
-		snapshot := l.chanView.StateSnapshot()
-
-		return fn.Some(chancloser.ShutdownBalances{
-			LocalBalance:  snapshot.LocalBalance,
-			RemoteBalance: snapshot.RemoteBalance,
-		})
+		return fn.Some(coopCloseBalances(
+			l.chanView.ChanType(), l.chanView.IsInitiator(),
+			l.chanView.StateSnapshot(),
+		))
 
 	// Otherwise, the link is still active and not flushed, so the balances
 	// aren't yet final.
